@@ -253,6 +253,13 @@ async def fast_sleep_factory():
     return real, fast
 
 
+
+def httpx_client(d):
+    """the httpx.AsyncClient of an HTTPDownloader (private attribute, found by name or by type)"""
+    import httpx
+    return C.priv(d, ["_httpx"], lambda n, v: isinstance(v, httpx.AsyncClient))
+
+
 def make_http_settings(root: Path, url: str, **kw):
     from apt_mirror.download.downloader import DownloaderSettings
     from apt_mirror.download.proxy import Proxy
@@ -267,16 +274,34 @@ def make_http_settings(root: Path, url: str, **kw):
         verify_ca_certificate=kw.get("verify", True), client_certificate=kw.get("cert"), client_private_key=kw.get("key"))
 
 
+REAL_WRITER = {"used": 0, "probe_left": 0, "unavailable": 0}
+
+
 async def download_one(settings, df):
     from apt_mirror.download import DownloaderFactory
     real = asyncio.sleep
     _, fast = await fast_sleep_factory()
     asyncio.sleep = fast
     try:
+        # over real HTTP the real file writer of the tool is used too (aiofile / caio through the tool's own
+        # factory, storage self-test included) - the simulated runs replace it
+        try:
+            from apt_mirror.aiofile import AsyncIOFileFactory
+            probe = Path(settings.target_root_path) / ".apt_mirror_aio"
+            key = id(asyncio.get_running_loop())
+            if REAL_WRITER.get("loop") != key:     # one factory (one AIO context) per event loop, as one per repository in the tool
+                REAL_WRITER["factory"] = await AsyncIOFileFactory.create(probe)
+                REAL_WRITER["loop"] = key
+                if probe.exists():
+                    REAL_WRITER["probe_left"] += 1
+            settings.aiofile_factory = REAL_WRITER["factory"]
+            REAL_WRITER["used"] += 1
+        except (ImportError, SystemError, OSError):   # no aiofile / no AIO context on this system: the simulated writer stays
+            REAL_WRITER["unavailable"] += 1
         d = DownloaderFactory.for_settings(settings=settings)
         d.add(df)
         await d.download()
-        await d._httpx.aclose()
+        await httpx_client(d).aclose()
         return d
     finally:
         asyncio.sleep = real
@@ -477,7 +502,7 @@ def run_settings(rep, rng, sb: Path):
         d = DownloaderFactory.for_settings(settings=settings)
         out = []
         for sch in ("http://", "https://"):
-            t = d._httpx._transport_for_url(__import__("httpx").URL(sch + "h/x"))
+            t = httpx_client(d)._transport_for_url(__import__("httpx").URL(sch + "h/x"))
             pool = t._pool
             purl = getattr(pool, "_proxy_url", None)
             pstr = None
@@ -489,12 +514,12 @@ def run_settings(rep, rng, sb: Path):
                 pa = ph.get(b"Proxy-Authorization")
                 pstr = (o.scheme.decode() + "://" + o.host.decode() + (f":{o.port}" if o.port else "") + (target if target != "/" else ""), pa)
             out.append((pstr, bool(getattr(pool, "_http2", False))))
-        a = d._httpx.auth
+        a = httpx_client(d).auth
         auth = None
         if a is not None and hasattr(a, "_auth_header"):
             auth = base64.b64decode(a._auth_header.split()[1]).decode().split(":", 1)
-        ua = d._httpx.headers.get("user-agent")
-        await d._httpx.aclose()
+        ua = httpx_client(d).headers.get("user-agent")
+        await httpx_client(d).aclose()
         return out, auth, ua
 
     combos = []
@@ -648,6 +673,13 @@ def run(rep: C.Report):
     try:
         rows, found = run_http_cases(rep, rng, 140 if rep.tier == "quick" else 4000, sb)
         crow, f2 = run_settings(rep, rng, sb)
+        rep.count("real_file_writer.transfers", REAL_WRITER["used"])
+        rep.count("real_file_writer.unavailable", REAL_WRITER["unavailable"])
+        if REAL_WRITER["probe_left"]:
+            found = True
+            rep.violation(f"the storage self-test of the tool's file writer left its probe file behind "
+                          f"({REAL_WRITER['probe_left']} times)",
+                          {"kind": "oracle", "tie": "http", "case": {"probe": ".apt_mirror_aio"}}, tags={"oracle": "probe_left"})
     finally:
         shutil.rmtree(sb, ignore_errors=True)
     found = found or f2
